@@ -240,7 +240,10 @@ def run_case(case):
                 ens = sorted(set(n.split('|')[0] for n in o.names if n not in o.cov_names))
                 variants = [({'S': 2.0}, 'kw'), ({'S': {e: 1.0 + i for i, e in enumerate(ens)}}, 'perens'),
                             ({'tau_exp': {e: (3 if i % 2 == 0 else 0) for i, e in enumerate(ens)}, 'N_sigma': 1}, 'perens'),
-                            ({'S': 0}, 'global')]
+                            ({'S': 0}, 'global'),
+                            # an entry only for the FIRST ensemble: the others must fall back to the global default
+                            ({'S': {ens[0]: 1.0}}, 'perens'), ({'tau_exp': {ens[0]: 3}}, 'perens'),
+                            ({'tau_exp': 3, 'N_sigma': {ens[0]: 2}}, 'perens'), ({'S': {ens[-1]: 3.0}}, 'perens')]
                 for vi, (pars, source) in enumerate(variants):
                     for fft in (True, False):
                         if 'vi' in case and (case['vi'] != vi or case['fft'] != fft or case['ci'] != ci or case['d'] != d):
@@ -266,6 +269,10 @@ def analyse_multi(pe, o, pars, fft, source):
     r = compare.to_ref(o)
     full = {'S': 2.0, 'tau_exp': 0.0, 'N_sigma': 1.0}
     full.update(pars)
+    all_ens = sorted(set(n.split('|')[0] for n in r['chains']))
+    for k, v in list(full.items()):
+        if isinstance(v, dict):   # ensembles without an entry use the global default
+            full[k] = {e: v.get(e, {'S': 2.0, 'tau_exp': 0.0, 'N_sigma': 1.0}[k]) for e in all_ens}
     exp = ref.r_gamma(r, full['S'], full['tau_exp'], full['N_sigma'])
     if any(isinstance(v, str) for v in exp.values()):
         return 'skip', None, 'refusal-in-multi'
